@@ -2,22 +2,22 @@
 (* Exhaustive: every chain of three states over Key x Val, every tamper class, *)
 (* every concrete tampering of that class, for both blocks.                    *)
 EXTENDS StateSync
-A_None == \E i \in 1..2 : /\ Sync("none", i)
-                           /\ last'.t = "none"
-A_Drop == \E i \in 1..2 : /\ Sync("drop", i)
-                           /\ last'.t = "drop"
-A_Extra == \E i \in 1..2 : /\ Sync("extra", i)
-                           /\ last'.t = "extra"
-A_Alter == \E i \in 1..2 : /\ Sync("alter", i)
-                           /\ last'.t = "alter"
-A_WrongRoot == \E i \in 1..2 : /\ Sync("wrongroot", i)
-                           /\ last'.t = "wrongroot"
-A_WrongHash == \E i \in 1..2 : /\ Sync("wronghash", i)
-                           /\ last'.t = "wronghash"
-A_Replay == \E i \in 1..2 : /\ Sync("replay", i)
-                           /\ last'.t = "replay"
-A_Swap == \E i \in 1..2 : /\ Sync("swap", i)
-                           /\ last'.t = "swap"
+A_None == /\ last.t = "init"
+          /\ \E i \in 1..2 : Sync("none", i)
+A_Drop == /\ last.t = "init"
+          /\ \E i \in 1..2 : Sync("drop", i)
+A_Extra == /\ last.t = "init"
+          /\ \E i \in 1..2 : Sync("extra", i)
+A_Alter == /\ last.t = "init"
+          /\ \E i \in 1..2 : Sync("alter", i)
+A_WrongRoot == /\ last.t = "init"
+          /\ \E i \in 1..2 : Sync("wrongroot", i)
+A_WrongHash == /\ last.t = "init"
+          /\ \E i \in 1..2 : Sync("wronghash", i)
+A_Replay == /\ last.t = "init"
+          /\ \E i \in 1..2 : Sync("replay", i)
+A_Swap == /\ last.t = "init"
+          /\ \E i \in 1..2 : Sync("swap", i)
 MCNext == A_None \/ A_Drop \/ A_Extra \/ A_Alter \/ A_WrongRoot \/ A_WrongHash \/ A_Replay \/ A_Swap
 MCSpec == Init /\ [][MCNext]_vars
 (* the swap class does get accepted with a missing node somewhere (witness that the model reaches it) *)
